@@ -181,7 +181,7 @@ pub fn make_signs(cx: &Cx) -> Vec<(flipdot_core::Address, flipdot_core::PageFlip
                 cx.probe("bus_with_8_or_more_signs");
                 if cx.chance(1, 4) {
                     cx.probe("bus_with_more_than_32_signs");
-                    33 + cx.draw(8) as usize
+                    if cx.chance(1, 3) { 65 + cx.draw(8) as usize } else { 33 + cx.draw(8) as usize }
                 } else {
                     8 + cx.draw(5) as usize
                 }
@@ -327,7 +327,7 @@ impl Scenario for Flood {
     }
     fn runs(&self, tier: Tier) -> u64 {
         match tier {
-            Tier::Quick => 12,
+            Tier::Quick => 16,
             Tier::Thorough => 256,
         }
     }
@@ -344,14 +344,27 @@ impl Scenario for Flood {
             w.delivery_cap = 200_000;
         }
         // the six combinations of (configuration | pixels) x (chunk shape) are taken in turn by run index
-        let combo = cx.index() % 6;
+        // (the logging batch has only four runs: it takes the second half of the combinations)
+        let combo = ((cx.index() & !crate::core::LOG_BIT) + if cx.index() & crate::core::LOG_BIT != 0 { 4 } else { 0 }) % 8;
         let in_pixels = combo % 2 == 1;
         let total = 65_536 + cx.draw(4_465);
         let deliver = |m: Message<'static>| {
             let _ = world.lock().deliver(&m);
         };
         deliver(Message::RequestOperation(a, Operation::ReceiveConfig));
-        let block = gens::sign_type(cx).to_bytes().to_vec();
+        // fourth shape: a tiny custom sign (8x8: one chunk per page), every chunk a complete page, so
+        // that the page LIST grows past 65 536 entries
+        let tiny = combo / 2 == 3;
+        let block = if tiny {
+            cx.probe("more_than_65536_pages_in_one_transfer");
+            let mut b = vec![0u8; 16];
+            b[0] = 0x08;
+            b[5] = 8;
+            b[7] = 8;
+            b
+        } else {
+            gens::sign_type(cx).to_bytes().to_vec()
+        };
         if in_pixels {
             deliver(Message::SendData(Offset(0), gens::data(block.clone())));
             deliver(Message::DataChunksSent(ChunkCount(1)));
@@ -371,6 +384,13 @@ impl Scenario for Flood {
             }
             if in_pixels && big {
                 deliver(Message::SendData(Offset(16), gens::data(vec![0x5A; 255])));
+            } else if in_pixels && tiny {
+                let mut page = vec![0xFFu8; 16];
+                page[0] = i as u8;
+                page[1] = 0x10;
+                page[2] = 0;
+                page[3] = 0;
+                deliver(Message::SendData(Offset(0), gens::data(page)));
             } else if in_pixels {
                 let n = if small { 0 } else { 16 };
                 let off = if i % 3 == 0 { 0 } else { 16 };
